@@ -103,26 +103,38 @@ CHECKS["C11"] = dict(
              "+ byte-exact differential correspondence with fault injection and file corruption",
    design="DESIGN.md §2 C11")
 CHECKS["C13"] = dict(
-   text="Theorems over ALL extensions, home-directory contents, control-file texts, messages and envelope bytes about the Lean model Nq.Local of qmail-local.c: "
-        "candidate names = documented search order (exact, then every dash-boundary prefix + 'default', longest first; lower-cased, dots to colons), a file is used iff it is the first "
-        "existing regular candidate and not writable by others, first non-absent candidate decides (no fall-through on EIO/EACCES/writable), every name is .qmail++dash++(dot-free, "
-        "upper-case-free) hence no '..'; $DEFAULT as documented; home/file permission and sticky refusals exit 111 before anything is opened or delivered; x bit/+list: no file or program "
-        "instruction is ever acted on and the first one is refused (111); line splitting and per-line classification = dot-qmail(5); the C instruction loop = an independently written "
-        "documented walk (same instructions, deliveries in order, collected addresses, ending) both delivering and with -n; exit 99 keeps earlier forwards and drops later lines; a failure "
-        "stops the loop; the forwarded copy is the last effect, only after success, to exactly the collected addresses, with the documented -owner/VERP sender; mailprogram's exit switch "
-        "(regenerated from the source each run) = qmail-command(8) for every status; bouncexf = 'a complete header line equals the Delivered-To line' and such a message bounces (100) before "
-        "any lookup; Delivered-To/Return-Path are one line each for all bytes. Tied to the current source by a translator (exit switches, conf-patrn, bit masks, exit codes and texts of the fixed "
-        "diagnostics) and by running the real main() in-process (sanitised build of the working tree) in generated real home directories against the compiled model: all subsets of 7/5 .qmail names x 46 "
-        "near-miss extensions, all sequences of <=3 (thorough 4) lines from a 20-line grammar set x x-bit, real deliveries with stand-in commands for all 256 exit codes and all sequences of <=2 (3) "
-        "delivery lines, 16 home modes x 20 file modes, 16 message shapes x hostile recipients/hosts/senders x owner files, 30 000 (400 000) random cases; compared on exit code, stdout, diagnostic, "
-        "names opened, delivery events, forward envelope+body, 12 environment variables; the oracle (Nq.LocalSpec = the man pages) is evaluated on the implementation's output.",
-   note=NOTE_COMMON + "Modelled, not verified: POSIX lookup in the generated homes (reconstructed by the driver from the case description; the harness verifies the home was realised), result of "
-        "commands (stand-ins run by the real /bin/sh) and of mbox/maildir writes (C12), qmail-queue (replaced by a recorder with a scripted verdict), argv strings are NUL-free, date in the From_ line. "
-        "Correspondence only (no theorem): EXTn/HOSTn/UFLINE/RPLINE quoting, stdout/stderr texts, the last lines of LocalSpec.follow (exit code after the walk).",
-   technique="Lean 4 proof (search-order and confinement lemmas, structural induction over the instruction loop, simulation of the C loop by a documented one-pass walk, header-scan = line spec, finite exit table) "
-             "+ translator for switch tables/constants + differential whole-program correspondence in real temporary home directories",
+   text="51 theorems over ALL extensions, home-directory contents, control-file texts, messages and envelope bytes about the Lean model Nq.Local of qmail-local.c "
+        "(a transcription of the C control flow; every theorem is proved by induction / case analysis on the model's definitions, none restates a monitor guard; the model "
+        "is tied to the code by a translator and by trace replay): candidate names = documented search order (exact, then every dash-boundary prefix + 'default', longest "
+        "first; lower-cased, dots to colons), a file is used iff it is the first existing regular candidate and not writable by others, first non-absent candidate decides, "
+        "every name opened AND every name given to stat for the -owner test during a whole run is .qmail++dash++(dot-free) hence has no '..'; $DEFAULT as documented; "
+        "home/file permission and sticky refusals exit 111 before anything is opened, stat'ed or delivered; x bit / +list anywhere in the file: afterwards only forward lines "
+        "are acted on and the first file or program line is refused (111); line splitting and per-line classification = dot-qmail(5); the loop stops at the first line that "
+        "does not run through, every instruction acted on succeeded unless the loop failed, a failure is one of four identified cases tied to the failing line and its "
+        "diagnostic, exit 99 keeps earlier (successful) lines and drops later ones; the forwarded copy is the last effect, made iff the loop did not fail and addresses were "
+        "collected, with the documented -owner/VERP sender; exit code in all cases (0 on success and after 99, diagnostic's code on failure, 100/111 on qmail-queue's D/other "
+        "answer); mailprogram's exit switch (regenerated each run) = qmail-command(8) for every status; bouncexf = 'a complete header line equals the Delivered-To line', such "
+        "a message bounces (100) before any lookup, and only such a message gets that diagnostic; Delivered-To/Return-Path/From_ prefix contain no embedded newline; and the "
+        "capstone: run = LocalSpec.outcome (one documented result per invocation: exit code, effects in order, instructions acted on, counts, printed text) for every "
+        "invocation and world. Tied to the current source by a translator (exit switches, conf-patrn, bit masks, exit codes and texts of the fixed diagnostics, qmail-queue "
+        "verdict codes) and by running the real main() in-process (sanitised build of the working tree) in generated real home directories against the compiled model: all "
+        "subsets of 7/5 .qmail names x 46 near-miss extensions, all sequences of <=3 (thorough 4) lines from a 20-line grammar set x x-bit, real deliveries with stand-in "
+        "commands for all 256 exit codes and all sequences of <=2 (3) delivery lines, 16 home modes x 20 file modes, 16 message shapes x hostile recipients/hosts/senders x "
+        "owner files, the recipient's own Delivered-To line (and near misses) at every offset around read-buffer boundaries 128..8192, control files across 256/512/1024, "
+        "30 000 (400 000) random cases; compared on exit code, stdout, diagnostic, names opened, names stat'ed, delivery events, forward envelope+body, 12 environment "
+        "variables; the oracle is LocalSpec.outcome (the function of the capstone theorem) plus search-order, confinement, owner-name, $DEFAULT, loop and header-line "
+        "predicates and a post-run scan of the home directory, evaluated on the implementation's output.",
+   note=NOTE_COMMON + "Nq.LocalSpec is an independently formulated specification (one-pass walk with a state record, outcome as a decision list), not a verbatim rendering of "
+        "the man pages: it mirrors artefacts the pages do not mention (NUL truncation of control-file lines, leading NUL = blank line, +list and ignored +other lines, the C "
+        "boundary condition of the search loop). Modelled, not verified: POSIX lookup in the generated homes (reconstructed by the driver from the case description; the harness "
+        "verifies the home was realised), result of commands (stand-ins run by the real /bin/sh) and of mbox/maildir writes (C12; here an arbitrary oracle function - theorems "
+        "that need failing deliveries to have non-zero codes or file-delivery diagnostics say so as hypotheses), qmail-queue (replaced by a recorder with a scripted verdict), "
+        "argv strings are NUL-free, date in the From_ line, stat(\".\") failing (outside the documentation; model and code agree on 111). Correspondence only (no theorem): "
+        "EXTn/HOSTn/RPLINE quoting, stderr texts, the qp line.",
+   technique="Lean 4 proof (search-order and confinement lemmas, structural induction over the instruction loop incl. append/first-stop decomposition, simulation of the C loop by a "
+             "documented one-pass walk, whole-run equality with a documented outcome function, header-scan = line spec, finite exit table) "
+             "+ translator for switch tables/constants + differential whole-program correspondence in real temporary home directories with post-run directory scan",
    design="DESIGN.md §2 C13")
-
 CHECKS["C14"] = dict(
    text="Theorems over ALL recipients, report bytes, sender forms and configurations about the Lean model Nq.Bounce of qmail-send.c "
         "stripvdomprepend()/addbounce()/del_dochan()/getcontrols()/injectbounce(): each addbounce call is exactly one paragraph that begins with "
